@@ -160,3 +160,49 @@ func objClass(c *objCase, o *objObs) string {
 	sort.Strings(ks)
 	return "obj/" + strings.Join(ks, "+")
 }
+
+// objExhaustive (thorough tier): every combination of small (original, target, live) shapes of ONE keyed list
+// (Service ports: absent / empty / one or two elements in either order, with a changed and a drifted member)
+// through the strategic path, and of one custom-resource spec through the two JSON paths and --force.
+func objExhaustive() []any {
+	var out []any
+	p := func(port float64, name string) jm { return jm{"port": port, "name": name} }
+	origs := []jl{nil, {}, {p(80, "http")}, {p(80, "http"), p(443, "https")}}
+	tgts := []jl{nil, {}, {p(80, "http")}, {p(80, "web")}, {p(443, "https"), p(80, "http")}, {p(80, "http"), p(8080, "alt")}}
+	lives := []jl{nil, {}, {p(80, "http")}, {p(80, "DRIFT")}, {p(9090, "foreign"), p(80, "http")}, {p(443, "https"), p(80, "http"), p(9090, "foreign")},
+		{p(80, "http"), p(443, "https")}}
+	svc := func(ports jl) objRes {
+		spec := jm{"selector": jm{"app": "web"}}
+		if ports != nil {
+			spec["ports"] = ports
+		}
+		return objRes{Kind: "Service", Name: "web", Body: jm{"spec": spec}}
+	}
+	for _, o := range origs {
+		for _, t := range tgts {
+			for _, l := range lives {
+				for _, force := range []bool{false, true} {
+					if force && (len(o) > 1 || len(l) > 2) {
+						continue
+					}
+					out = append(out, c02Case{Obj: &objCase{Live: []objRes{svc(l)},
+						Steps: []objStep{{Verb: "update", Force: force, Orig: []objRes{svc(o)}, Tgt: []objRes{svc(t)}}}}})
+				}
+			}
+		}
+	}
+	specs := []jm{{}, {"a": "v1"}, {"a": "v2"}, {"a": "v1", "m": jm{"x": "1"}}, {"a": "v1", "m": jm{"x": "2", "y": "1"}}, {"m": "scalar"}, {"a": "v1", "l": jl{"p"}},
+		{"a": "v1", "l": jl{"p", "q"}}}
+	lspecs := append(append([]jm{}, specs...), jm{"a": "DRIFT", "m": jm{"x": "DRIFT", "foreign": "f"}, "l": jl{"DRIFT"}}, jm{"foreign": jm{"deep": "f"}})
+	for _, o := range specs {
+		for _, t := range specs {
+			for _, l := range lspecs {
+				for mode := 0; mode < 3; mode++ {
+					st := objStep{Verb: "update", Force: mode == 2, ThreeWay: mode == 1, Orig: []objRes{oWidget("w1", o)}, Tgt: []objRes{oWidget("w1", t)}}
+					out = append(out, c02Case{Obj: &objCase{Live: []objRes{oWidget("w1", l)}, Steps: []objStep{st}}})
+				}
+			}
+		}
+	}
+	return out
+}
